@@ -510,7 +510,7 @@ func (d *decState) decode(gt Value, t types.Type, dst *Value) {
 	m.touch(dst)
 	kind := gtKind(gt)
 	if _, isIface := t.Underlying().(*types.Interface); !isIface {
-		if m.hasMethod(types.NewPointer(t), "UnmarshalJSON") || m.hasMethod(types.NewPointer(t), "UnmarshalText") {
+		if m.hasMethod(ptrTo(t), "UnmarshalJSON") || m.hasMethod(ptrTo(t), "UnmarshalText") {
 			m.fail("unsupported", "json: type "+t.String()+" has a custom unmarshaler (not modelled)")
 		}
 	}
